@@ -419,7 +419,9 @@ MORE = {
            'start state with two records of one object in one transaction, '
            'stale-id undo of the newest packed transaction (refused, or same '
            'effect as without pack), DB.pack(t, days) for every argument '
-           'combination.',
+           'combination; a pack that raises in these histories is a '
+           'violation unless garbage collection met a reference to an '
+           'object that does not exist.',
     'C08': 'Three concurrent packs with a packer-entry oracle, pack+writer '
            'with 64 / 96 / 160-byte buffers (read-ahead and partial flushes), '
            'one ENOSPC at the n-th file-system operation of a pack for every '
